@@ -77,6 +77,10 @@ func verifC15() {
 			files[dir+"excluded.go"] = "//go:build ignore\n\npackage " + verifC15Name(i) + "\n\nimport \"log\"\n\nvar E = log.Note(\"EXCLUDED " + verifC15Name(i) + "\")\n"
 			files[dir+"nongoat.go"] = "//go:build !goat\n\npackage " + verifC15Name(i) + "\n\nimport \"log\"\n\nvar N = log.Note(\"NONGOAT " + verifC15Name(i) + "\")\n"
 			files[dir+"goatonly.go"] = "//go:build goat\n\npackage " + verifC15Name(i) + "\n\nimport \"log\"\n\nvar G = log.Note(\"goat " + verifC15Name(i) + "\")\n"
+			// placement: a constraint counts only before the package clause (blank lines and line comments may precede it)
+			files[dir+"header.go"] = "// Copyright header\n// second line\n\n//go:build !goat\n\npackage " + verifC15Name(i) + "\n\nimport \"log\"\n\nvar H = log.Note(\"HEADERSKIP " + verifC15Name(i) + "\")\n"
+			files[dir+"late.go"] = "package " + verifC15Name(i) + "\n\n//go:build ignore\n\nimport \"log\"\n\nvar L = log.Note(\"late " + verifC15Name(i) + "\")\n"
+			files[dir+"quoted.go"] = "package " + verifC15Name(i) + "\n\nimport \"log\"\n\n/*\n//go:build ignore\n*/\nvar Q = log.Note(\"quoted " + verifC15Name(i) + "\" + `\n//go:build ignore\n`[0:0])\n"
 		}
 		if layout == 6 && i == 0 {
 			files[dir+"conflict.go"] = "package other\n"
@@ -179,6 +183,9 @@ func verifC15() {
 			if layout == 5 {
 				_, cg := index("goat " + name)
 				verifAssert(cg == 1, "C15/goat-tagged-file-included")
+				_, cl := index("late " + name)
+				_, cq := index("quoted " + name)
+				verifAssert(cl == 1 && cq == 1, "C15/constraint-text-after-the-package-clause-is-ignored")
 			}
 		} else {
 			verifAssert(ct == 0 && ci == 0, "C15/unreachable-package-not-loaded")
@@ -194,6 +201,7 @@ func verifC15() {
 		}
 	}
 	verifAssert(!strings.Contains(out, "TESTFILE") && !strings.Contains(out, "EXCLUDED") && !strings.Contains(out, "NONGOAT"), "C15/ignored-files-not-run")
+	verifAssert(!strings.Contains(out, "HEADERSKIP"), "C15/constraint-after-a-header-comment-excludes-the-file")
 }
 
 var verifC15Out, verifC15Err string
